@@ -10,6 +10,7 @@ pub fn singles() -> Vec<Spec> {
 
 pub fn flat(max: usize) -> Vec<Spec> {
 	let mut out = vec![];
+	let max = max.min(crate::world::NR);
 	for k in KINDS {
 		for n in 0..=max {
 			for p in perms(n) {
